@@ -191,7 +191,10 @@ QLatency(q, nref, minref, nok, minok) ==
 QDropLatency(q, n, min) ==
   Flag(q, IF n >= 3 /\ min > 50000 THEN {<<"C09", "every-stopping-drop-waited-while-the-wrapped-sink-was-blocked">>} ELSE {})
 
-QBulk(q, okn, deln) == [q EXCEPT !.bulkOk = @ + okn, !.bulkDel = @ + deln]
+\* tallies of a contention phase (nothing logged per call): accepted, handed over, refused
+QBulk(q, okn, deln, refn) ==
+  [Flag(q, IF q.cap = UNBOUNDED /\ refn > 0 THEN {<<"C10", "unbounded-queue-refused-a-metric">>} ELSE {})
+   EXCEPT !.bulkOk = @ + okn, !.bulkDel = @ + deln]
 
 \* after every producer returned and the sink had time to drain, handles still alive
 QQuiesce(q, s, d, qd, p) ==
